@@ -30,14 +30,20 @@ LEVEL_TEXT = ("Proved in Lean for every workspace content (any damage, any numbe
               "unparsable or parses to a value with another hash; opening by id in a fresh session yields an error or a state "
               "point hashing to the id whatever the damage (given a sound cache file, which update_cache guarantees, C08); an "
               "intact job always opens; repair() with all listed state points known from the cache reports nothing, makes "
-              "check() pass, keeps the listing and every directory's payload. The stronger reading (each payload ends under "
+              "check() pass, keeps the listing and every directory's payload; the rename route is proved as well: an intact "
+              "state point file in a misnamed directory makes repair() move the directory to the hash of that state point "
+              "with its payload (repair_rename_one), unless that name is taken by a non-empty directory (repair_rename_blocked: "
+              "reported, nothing changed), and for any mix of cache-known, intact and misnamed-but-intact directories with free "
+              "pairwise distinct destinations repair() reports nothing, check() passes and the payloads are a permutation of the "
+              "old ones, each under its destination id (repair_restores_renamed); repair keeps the cache sound, so a later "
+              "update_cache + fresh open-by-id is still sound (open_by_id_sound_after_repair). The stronger reading (each payload ends under "
               "its own state point) is proved FALSE from the directory-swap witness (known finding F-9b). The model is "
               "compared with the real check / open_job(id) / repair on byte-level damage enumerated over offsets and byte "
               "classes, with the real listing order as an input; an independent oracle classifies damage by a canonical hash "
               "of json.loads of the damaged bytes.")
 LEVEL_NOTE = ("Trusted: Lean kernel + 3 standard axioms; harness/oracle; json.loads is a parameter of the model (the harness "
-              "reports absent / unparsable / parsed value). The rename route of repair (intact file in a misnamed directory) "
-              "is modelled and compared but only the cache route is proved. MD5 collision-freeness assumed for 'a changed "
+              "reports absent / unparsable / parsed value). Both routes of repair (cache, rename) are proved. The oracle also accesses every damaged job repeatedly "
+              "through ONE handle on a copy of the project (each answer: error or a state point hashing to the id). MD5 collision-freeness assumed for 'a changed "
               "value has a changed hash'. Known finding F-9b carved out exactly (directory swap with a cache).")
 
 SPS = [
